@@ -131,11 +131,9 @@ func (m *C11) AfterTx(e *eng.Engine, t *eng.TxRec) {
 				allAdm = false
 			}
 			if kind != "" && kind != "none" && repr {
-				ad := dist
-				if ad < 0 {
-					ad = -ad
-				}
-				if ad <= time.Second {
+				// dist saturates for differences beyond ~292 years: a saturated value is far away
+				near := dist > -2*time.Second && dist < 2*time.Second && dist >= -time.Second && dist <= time.Second
+				if near {
 					side := "at-or-after"
 					if dist < 0 {
 						side = "before"
@@ -165,12 +163,6 @@ func (m *C11) AfterTx(e *eng.Engine, t *eng.TxRec) {
 			for k, n := range need {
 				tr, _, _ := pre.BalOf(x.Owner, k)
 				if tr.Cmp(n) < 0 {
-					has = false
-				}
-			}
-			// basket totals that leave the ordinary stratum are excluded (token conversion limits)
-			for _, tot := range basketTotals(pre) {
-				if tot.Cmp(new(big.Rat).SetInt(ref.Pow10(24))) > 0 {
 					has = false
 				}
 			}
